@@ -1,10 +1,11 @@
 #!/bin/sh
-# Offline setup: create scratch dirs and make sure the Kani toolchain can compile the
-# harness crate against /repo (one warm-up codegen; each check rebuilds from /repo anyway).
+# Offline setup: scratch dirs + one warm-up codegen of the harness crate against /repo
+# (every check rebuilds from /repo's working tree anyway).
 set -e
 cd "$(dirname "$0")"
 mkdir -p .work evidence replays
 export CARGO_NET_OFFLINE=true
+python3 ./check C14 --list >/dev/null
 cd kani
 cargo kani -Z stubbing --features c14 --target-dir ../.work/target-C14 --only-codegen >../.work/setup.log 2>&1 || { tail -50 ../.work/setup.log; exit 1; }
 echo "setup ok"
